@@ -70,10 +70,10 @@ CHECKS['C15'] = {
     'technique': 'deterministic simulation: seeded traffic and air-fault sequences between the real PDU buffer and a reference central ARQ',
     'design_ref': 'DESIGN.md 4.3, 6 (C15)',
     'level_text': 'Seeded search over traffic (both directions, all LLIDs, empty PDUs, size changes, lagging upper layer, stop, reset) and air faults attached to each packet exchange '
-                  '(loss / CRC error in either direction, MIC error) on ll_data_pdu_buffer for 10 buffer/layout configurations. Oracles: deliveries to the upper layer equal the '
+                  '(loss / CRC error in either direction, MIC error) on ll_data_pdu_buffer for 10 buffer/layout configurations, each once behind a re-stated radio decision table and once behind the real nRF52 radio front end (nrf52.hpp: schedule_connection_event, radio_interrupt_handler, run) on a simulated Hardware. Oracles: deliveries to the upper layer equal the '
                   'central\'s sent sequence, in order, once; nothing is acknowledged that was not accepted (incl. full buffer); the central receives exactly the committed PDUs in order; '
                   'a transmit PDU is released only after the central has it; after faults stop everything is delivered within a bounded number of exchanges. Sampling, not proof.',
-    'level_note': 'trusted: the reference central and the re-statement of the nRF52 receive decision table in harness/pdu_sim.cpp; the central honours max_rx_size',
+    'level_note': 'trusted: the reference central, the re-statement of the nRF52 receive decision table (configurations 0..9) and the simulated Hardware below the real front end (configurations 10..19) in harness/pdu_sim.cpp, harness/nrf_front.hpp; the central honours max_rx_size',
     'assumptions': ['the central never sends a PDU larger than the current max_rx_size', 'one packet pair per exchange (the nRF52 binding clears MD)'],
     'explanation': 'Known finding: an empty ring whose pointers sit in the middle cannot allocate a maximum-size PDU when the ring is smaller than two of them; the link then stalls (see known_findings.json).',
 }
@@ -81,7 +81,7 @@ CHECKS['C16'] = {
     'harnesses': [_PDU],
     'technique': 'deterministic simulation: seeded loss/retransmission patterns, packet-counter calls compared with the reference central nonce sequence',
     'design_ref': 'DESIGN.md 4.3, 6 (C16)',
-    'level_text': 'Same simulated world as C15. The radio stub records increment_receive/transmit_packet_counter calls; the MIC verdict of every non-empty PDU is computed from the two '
+    'level_text': 'Same simulated world as C15. The radio stub, or the simulated Hardware below the real nRF52 front end with encryption support, records increment_receive/transmit_packet_counter calls; the MIC verdict of every non-empty PDU is computed from the two '
                   'sides\' counters as CCM would. Oracles: the receive counter advances by exactly one for a new non-empty PDU and not otherwise; every new non-empty PDU accepted by the '
                   'central was sent with the counter value the central expects; final counters equal the number of non-empty PDUs moved. Sampling, not proof.',
     'level_note': 'trusted: reference central; counter::increment in nrf52.cpp (the 39-bit register arithmetic) is not executed',
@@ -94,7 +94,7 @@ CHECKS['C17'] = {
     'design_ref': 'DESIGN.md 4.3, 6 (C17)',
     'level_text': 'Same simulated world as C15 with MIC faults biased up. A PDU that reached the buffer only through acknowledge() while its sequence number was new must never be '
                   'acknowledged (NESN advanced) - the central must still hold it; retransmissions of already delivered PDUs, which fail the MIC because the counter moved on, may be. Sampling, not proof.',
-    'level_note': 'trusted: reference central; the decision "valid CRC and invalid MIC -> acknowledge()" is re-stated from nrf52.hpp, not executed from it (stack_sim/R2 executes the real one)',
+    'level_note': 'trusted: reference central; the decision "valid CRC and invalid MIC -> acknowledge()" is re-stated from nrf52.hpp in configurations 0..9 and executed from it in configurations 10..19; the payload of a PDU that fails its MIC is garbled',
     'assumptions': ['MIC verdict of a retransmission follows from the packet counters'],
     'explanation': '',
 }
